@@ -76,45 +76,76 @@ pub open spec fn emit(a: Acc, x: Seq<char>, has_tail: bool, env: EnvV) -> Acc {
     }
 }
 
-/// an ordinary text line: tags are substituted, the line is written
-pub open spec fn emit_text(a: Acc, l: Seq<char>, env: EnvV) -> Acc {
+/// something to be written: (text, the directive that produced it was ended by a following line)
+pub type Wr = Option<(Seq<char>, bool)>;
+
+pub open spec fn emit_opt(a: Acc, w: Wr, env: EnvV) -> Acc {
+    match w {
+        Some(x) => emit(a, x.0, x.1, env),
+        None => a,
+    }
+}
+
+/// result of one transition: the state, and what it wants written
+pub enum StepW {
+    Fail,
+    Cont(Acc, Wr),
+}
+
+pub open spec fn apply_w(s: StepW, env: EnvV) -> Step {
+    match s {
+        StepW::Fail => Step::Fail,
+        StepW::Cont(a, w) => Step::Cont(emit_opt(a, w, env)),
+    }
+}
+
+/// an ordinary text line: tags are substituted, the line is to be written
+pub open spec fn text_w(a: Acc, l: Seq<char>, env: EnvV) -> StepW {
     if ppv_is_execute(a.pp) {
         let r = spec_inject(a.tags.stored, l, env.le);
-        emit(Acc { tags: TagV { stored: r.1, ..a.tags }, ..a }, r.0, false, env)
+        StepW::Cont(Acc { tags: TagV { stored: r.1, ..a.tags }, ..a }, Some((r.0, false)))
     } else {
-        a
+        StepW::Cont(a, Some((l, false)))
     }
 }
 
 /// a directive is complete: execute it; its output goes to a listening tag, else (indented) to the file
-pub open spec fn run_directive(a: Acc, d: DView, has_tail: bool, env: EnvV) -> Step {
+pub open spec fn run_directive_w(a: Acc, d: DView, has_tail: bool, env: EnvV) -> StepW {
     let r = exec_spec(d, a.tags, a.pp, env);
     match r.0 {
-        ExecRes::Err => Step::Fail,
-        ExecRes::NoOutput => Step::Cont(Acc { cur: None, tags: r.1, pp: r.2, ..a }),
+        ExecRes::Err => StepW::Fail,
+        ExecRes::NoOutput => StepW::Cont(Acc { cur: None, tags: r.1, pp: r.2, ..a }, None),
         ExecRes::Out(raw) => {
             if r.1.listening is Some {
-                Step::Cont(Acc { cur: None, tags: TagV { listening: None, stored: r.1.stored.insert(r.1.listening->Some_0, raw) }, pp: r.2, ..a })
+                StepW::Cont(Acc { cur: None, tags: TagV { listening: None, stored: r.1.stored.insert(r.1.listening->Some_0, raw) }, pp: r.2, ..a }, None)
             } else {
-                Step::Cont(emit(Acc { cur: None, tags: r.1, pp: r.2, ..a }, spec_fmt_out(d.ws, lines_of(raw), ends_with_nl(raw), env.le), has_tail, env))
+                StepW::Cont(Acc { cur: None, tags: r.1, pp: r.2, ..a }, Some((spec_fmt_out(d.ws, lines_of(raw), ends_with_nl(raw), env.le), has_tail)))
             }
         },
     }
 }
 
+pub open spec fn run_directive(a: Acc, d: DView, has_tail: bool, env: EnvV) -> Step {
+    apply_w(run_directive_w(a, d, has_tail, env), env)
+}
+
 /// a line seen while no directive is open
-pub open spec fn step_fresh(a: Acc, l: Seq<char>, env: EnvV) -> Step {
+pub open spec fn step_fresh_w(a: Acc, l: Seq<char>, env: EnvV) -> StepW {
     match spec_detect(l) {
         Some(d) => {
             if spec_multi_line(d.dtype) && d.prefix.len() == 0 {
                 // a multi-line directive needs a prefix; clean ignores the error and treats the line as empty text
-                if env.mode is Clean { Step::Cont(emit_text(a, Seq::<char>::empty(), env)) } else { Step::Fail }
+                if env.mode is Clean { text_w(a, Seq::<char>::empty(), env) } else { StepW::Fail }
             } else {
-                Step::Cont(Acc { cur: Some(d), ..a })
+                StepW::Cont(Acc { cur: Some(d), ..a }, None)
             }
         },
-        None => Step::Cont(emit_text(a, l, env)),
+        None => text_w(a, l, env),
     }
+}
+
+pub open spec fn step_fresh(a: Acc, l: Seq<char>, env: EnvV) -> Step {
+    apply_w(step_fresh_w(a, l, env), env)
 }
 
 /// one source line
@@ -131,15 +162,17 @@ pub open spec fn step_line(a: Acc, l: Seq<char>, env: EnvV) -> Step {
     }
 }
 
-pub open spec fn run_lines(a: Acc, lines: Seq<Seq<char>>, from: int, env: EnvV) -> Step
-    decreases lines.len() - from,
+/// the remaining source lines, in order
+#[verifier::opaque]
+pub open spec fn run_lines(a: Acc, lines: Seq<Seq<char>>, env: EnvV) -> Step
+    decreases lines.len(),
 {
-    if from < 0 || from >= lines.len() {
+    if lines.len() == 0 {
         Step::Cont(a)
     } else {
-        match step_line(a, lines[from], env) {
+        match step_line(a, lines[0], env) {
             Step::Fail => Step::Fail,
-            Step::Cont(a2) => run_lines(a2, lines, from + 1, env),
+            Step::Cont(a2) => run_lines(a2, lines.skip(1), env),
         }
     }
 }
@@ -151,6 +184,7 @@ pub enum Final {
 }
 
 /// end of file: an open directive is executed, unused tags are an error, the option decides the last terminator
+#[verifier::opaque]
 pub open spec fn finish(a: Acc, trailing_newline: bool, env: EnvV) -> Final {
     let s = match a.cur {
         Some(d) => run_directive(a, d, false, env),
@@ -173,8 +207,76 @@ pub open spec fn finish(a: Acc, trailing_newline: bool, env: EnvV) -> Final {
 
 /// the whole file
 pub open spec fn spec_pp(lines: Seq<Seq<char>>, first_pass: bool, trailing_newline: bool, env: EnvV) -> Final {
-    match run_lines(acc0(first_pass), lines, 0, env) {
+    cont_lines(acc0(first_pass), lines, trailing_newline, env)
+}
+
+/// the result of the whole run when continuing from state `a` with `lines` still unread
+#[verifier::opaque]
+pub open spec fn cont_lines(a: Acc, lines: Seq<Seq<char>>, trailing_newline: bool, env: EnvV) -> Final {
+    match run_lines(a, lines, env) {
         Step::Fail => Final::Err,
-        Step::Cont(a) => finish(a, trailing_newline, env),
+        Step::Cont(b) => finish(b, trailing_newline, env),
     }
+}
+
+/// ... when, in addition, `tail` (the line that ended the previous directive) has still to be looked at
+#[verifier::opaque]
+pub open spec fn resume(a: Acc, tail: Option<Seq<char>>, lines: Seq<Seq<char>>, trailing_newline: bool, env: EnvV) -> Final {
+    match tail {
+        Some(t) => match step_fresh(a, t, env) {
+            Step::Fail => Final::Err,
+            Step::Cont(a2) => cont_lines(a2, lines, trailing_newline, env),
+        },
+        None => cont_lines(a, lines, trailing_newline, env),
+    }
+}
+
+
+/// One step of the continuation: what `resume` equals after the next line (the kept tail line, else the next
+/// source line, else end of file) has been taken.  Proved by unfolding the definitions once.
+pub proof fn lemma_resume_step(a: Acc, tail: Option<Seq<char>>, pend: Seq<Seq<char>>, tn: bool, env: EnvV)
+    ensures
+        (match tail {
+            Some(t) => resume(a, tail, pend, tn, env) == (match step_fresh_w(a, t, env) {
+                StepW::Fail => Final::Err,
+                StepW::Cont(a2, w) => resume(emit_opt(a2, w, env), None, pend, tn, env),
+            }),
+            None => if pend.len() > 0 {
+                resume(a, tail, pend, tn, env) == (match a.cur {
+                    None => (match step_fresh_w(a, pend[0], env) {
+                        StepW::Fail => Final::Err,
+                        StepW::Cont(a2, w) => resume(emit_opt(a2, w, env), None, pend.skip(1), tn, env),
+                    }),
+                    Some(d) => (match spec_continue(d, pend[0]) {
+                        Some(arg) => resume(Acc { cur: Some(DView { args: d.args.push(arg), ..d }), ..a }, None, pend.skip(1), tn, env),
+                        None => (match run_directive_w(a, d, true, env) {
+                            StepW::Fail => Final::Err,
+                            StepW::Cont(a2, w) => resume(emit_opt(a2, w, env), Some(pend[0]), pend.skip(1), tn, env),
+                        }),
+                    }),
+                })
+            } else {
+                // end of file: an open directive is executed (and the loop comes back once more), else finish
+                match a.cur {
+                    Some(d) => resume(a, tail, pend, tn, env) == (match run_directive_w(a, d, false, env) {
+                        StepW::Fail => Final::Err,
+                        StepW::Cont(a2, w) => resume(emit_opt(a2, w, env), None, pend, tn, env),
+                    }),
+                    None => resume(a, tail, pend, tn, env) == finish(a, tn, env),
+                }
+            },
+        }),
+{
+    reveal(resume);
+    reveal(cont_lines);
+    reveal(run_lines);
+    reveal(finish);
+}
+
+/// the whole-file spec is the continuation from the initial state
+pub proof fn lemma_spec_pp_is_resume(lines: Seq<Seq<char>>, first_pass: bool, tn: bool, env: EnvV)
+    ensures
+        spec_pp(lines, first_pass, tn, env) == resume(acc0(first_pass), None, lines, tn, env),
+{
+    reveal(resume);
 }
